@@ -131,7 +131,7 @@ def replay_search(prop, failure, tier):
     if not os.path.exists(drv):
         return False, rec
     try:
-        p = subprocess.run([sys.executable, drv, "--label", failure["label"], "--fn", failure.get("fn") or "", "--tier", tier],
+        p = subprocess.run([sys.executable, drv, "--label", failure["label"], "--fn", failure.get("fn") or "", "--tier", tier, "--prop", prop],
                            capture_output=True, text=True, timeout=900)
         rec["searched"] = True
         rec["driver_exit"] = p.returncode
@@ -151,7 +151,7 @@ def replay_search(prop, failure, tier):
             # every clause of f, so any probe of the property that the real code gets wrong is a witness)
             fams = load_props().get(prop, {}).get("families", [])
             if fams:
-                p2 = subprocess.run([sys.executable, drv, "--sweep", ",".join(fams), "--tier", tier], capture_output=True, text=True, timeout=3000)
+                p2 = subprocess.run([sys.executable, drv, "--sweep", ",".join(fams), "--tier", tier, "--prop", prop], capture_output=True, text=True, timeout=3000)
                 try:
                     out2 = json.loads(p2.stdout)
                 except Exception:
@@ -402,6 +402,14 @@ def check_property(prop, tier, seed):
         for u, e in undecided:
             lines.append(f"UNDECIDED property={prop} reason={e.reason} unit={u} {e.detail[:600]}")
         rc = 2
+    # an obligation of a function in this property's cone failed but its label is not one that decides THIS property (it
+    # decides another one): the proof this check relies on did not go through as a whole, so the verdict is undecided
+    # rather than OK (seeded change C11-4 passed as OK this way before the cone was widened)
+    foreign_new = [f for f in foreign if not any(finding_matches(k, k.get("property"), f) for k in known.get("findings", []))]
+    if foreign_new and not new and rc == 0:
+        for f in foreign_new[:6]:
+            lines.append(f"UNDECIDED property={prop} reason=obligation-of-another-property-failed unit={f.get('unit')} label={f['label']} fn={f.get('fn')} {f.get('message', '')[:120]} @ {f.get('site')}")
+        rc = 2
     if leaf.get("undecided") and not new and rc == 0:
         lines.append(f"UNDECIDED property={prop} reason=tool-error leaf: {leaf['undecided'][:600]}")
         rc = 2
@@ -479,7 +487,7 @@ def run_sweep(prop, cfg, tier):
         return res
     drv = os.path.join(VERIF, "replay", "run_replay.py")
     try:
-        p = subprocess.run([sys.executable, drv, "--sweep", ",".join(fams), "--tier", tier], capture_output=True, text=True, timeout=6000)
+        p = subprocess.run([sys.executable, drv, "--sweep", ",".join(fams), "--tier", tier, "--prop", prop], capture_output=True, text=True, timeout=6000)
         out = json.loads(p.stdout)
     except Exception as e:
         res["error"] = repr(e)
